@@ -275,6 +275,7 @@ class World:
         self.flags = set()
         self.write_seen = False
         self.unexpected = None
+        self.cur_kind = None
         self.member_ids = {}   # collection id -> ids of its member objects at creation
 
     # ---- handles ---------------------------------------------------------------------------
@@ -336,7 +337,7 @@ class World:
 
     # ---- failures ----------------------------------------------------------------------------
     def fail(self, what, detail):
-        self.mfail.append({"what": what, "step": len(self.script), "detail": detail})
+        self.mfail.append({"what": what, "step": len(self.script), "detail": dict(detail, operation=self.cur_kind)})
 
     # ---- observation -------------------------------------------------------------------------
     def observe(self, err):
@@ -530,6 +531,7 @@ class World:
         import warnings
         n_old = len(self.objs)
         n_model_old = len(self.model_ops)
+        self.cur_kind = d["k"]
         try:
             with warnings.catch_warnings(), np.errstate(all="ignore"):
                 warnings.simplefilter("ignore")
@@ -856,14 +858,26 @@ class World:
         dt = d.get("dt")
         if not nice(V, dt or DTN[V.dtype]):
             raise Skip()
+        ghosts = bool(d.get("ghosts", True))
+        arg = V.copy() if ghosts else V[valid_idx(grid)].copy()
         res, err = self.try_real(lambda: self.pde.FieldCollection.from_data(
-            [self.field_cls(c) for c in classes], grid, V.copy(), with_ghost_cells=True, dtype=DT[dt] if dt else None))
+            [self.field_cls(c) for c in classes], grid, arg, with_ghost_cells=ghosts, dtype=DT[dt] if dt else None))
         n0 = len(self.objs)
         start = 0
-        for c, nc in zip(classes, ncs):
-            self.model_ops.append({"op": "mkField", "cls": c, "grid": g, "dt": DTN[V.dtype], "cplx": bool(np.iscomplexobj(V)),
-                                   "init": "full", "vals": enc_arr(V[start:start + nc])})
+        for k, (c, nc) in enumerate(zip(classes, ncs)):
+            if ghosts:   # `field._data_flat = data[start:end]`: the field looks at the given array
+                self.model_ops.append({"op": "mkField", "cls": c, "grid": g, "dt": DTN[V.dtype], "cplx": bool(np.iscomplexobj(V)),
+                                       "init": "full", "vals": enc_arr(V[start:start + nc])})
+            else:        # `field_class(grid, dtype=data.dtype)` (zeros) and `field.data.flat = ...`
+                self.model_ops.append({"op": "mkField", "cls": c, "grid": g, "dt": DTN[V.dtype], "cplx": False, "init": "zeros"})
             start += nc
+        if not ghosts:
+            start = 0
+            for k, (c, nc) in enumerate(zip(classes, ncs)):
+                W = np.zeros_like(V[start:start + nc])
+                W[valid_idx(grid)] = V[start:start + nc][valid_idx(grid)]
+                self.model_ops.append({"op": "writeData", "h": n0 + k, "vals": enc_arr(W)})
+                start += nc
         self.model_ops.append({"op": "mkColl", "hs": list(range(n0, n0 + len(classes))), "copy": False, "dt": dt})
         if err is not None:
             raise Unexpected(f"from_data failed unexpectedly: {err}")
@@ -918,6 +932,39 @@ class World:
         self.model_ops.append({"op": "copy", "h": i, "dt": mdt})
         return self.coll_result(res, err)
 
+    def op_deepcopy(self, d):
+        """copy.deepcopy(h) / pickle round trip: every array duplicated, internal links restored by
+        __setstate__ (base.py:95-100, collection.py:222-227)"""
+        import copy
+        import pickle
+        i = self.rid(d["h"])
+        if self.cls[i] == "raw" or self.dtn(i) not in DT:
+            raise Skip()
+        if self.cls[i] == "coll" and any(m is None for m in self.members(i)):
+            raise Skip()
+        o = self.objs[i]
+        if d.get("how") == "pickle":
+            res, err = self.try_real(lambda: pickle.loads(pickle.dumps(o)))
+        else:
+            res, err = self.try_real(lambda: copy.deepcopy(o))
+        if err is not None:
+            raise Unexpected(f"deepcopy/pickle failed unexpectedly: {err}")
+        # the copy sits on an equal but distinct grid object: keep the world's grid table in step
+        if res.grid is not o.grid:
+            if res.grid != o.grid:
+                raise Unexpected("deep copy changed the grid")
+            self.regrid(res, o.grid)
+        self.model_ops.append({"op": "deepcopy", "h": i})
+        return self.coll_result(res, None)
+
+    def regrid(self, f, grid):
+        """replace the (equal) grid object of a deep-copied field by the world's grid object so that
+        later operations see one grid per grid id"""
+        f._grid = grid
+        if isinstance(f, self.pde.FieldCollection):
+            for m in f._fields:
+                m._grid = grid
+
     def op_neg(self, d):
         i = self.rid(d["h"])
         if self.cls[i] == "raw" or not nice(self.dat(i)):
@@ -963,8 +1010,17 @@ class World:
         bop = d["bop"]
         oa = self.objs[a]
         for i in [a] + ([mop["b"]] if "b" in mop else []):
-            if self.cls[i] == "coll" and any(m is None for m in self.members(i)):
-                raise Skip()
+            if self.cls[i] == "coll":
+                if any(m is None for m in self.members(i)):
+                    raise Skip()
+                # `result = collection.copy(dtype=T)` converts the *members'* data to T; members that were
+                # re-linked to another collection may have another dtype than the collection itself
+                try:
+                    T = DTN.get(np.dtype(np.result_type(self.dat(a), bval.data if "b" in mop else bval)))
+                except Exception:  # noqa: BLE001
+                    T = None
+                if T is None or not all(self.converts_exactly(m, T) for m in self.members(i)):
+                    raise Skip()
         if bop == "rsub":
             fn = lambda: bval - oa
         elif bop == "rdiv":
@@ -1275,7 +1331,7 @@ class Gen:
             ("mkField", (6 if nf < 3 else 2) * crowd), ("write", 3 if n else 0), ("cell", 3.5 if n else 0),
             ("ghost", 1.2 if nf else 0), ("component", 2.5 * crowd if nf else 0),
             ("mkColl", 4 * crowd if nf else 0), ("fromData", 0.5 * crowd), ("slice", 1.6 * crowd if ncoll else 0),
-            ("append", 1.6 * crowd if ncoll else 0), ("copy", 2.2 * crowd if n else 0), ("neg", 1 * crowd if n else 0),
+            ("append", 1.6 * crowd if ncoll else 0), ("copy", 2.2 * crowd if n else 0), ("deepcopy", 1.3 * crowd if n else 0), ("neg", 1 * crowd if n else 0),
             ("binop", 4 * crowd if nf else 0), ("inplace", 4.5 if nf else 0), ("operator", 1.3 * crowd if nf else 0),
             ("derived", 1.2 * crowd if nf else 0), ("storage", 2.2 * crowd if nf else 0),
             ("malformed", 1.6 if nf else 0),
@@ -1388,7 +1444,8 @@ class Gen:
         g = rng.randrange(len(w.grids))
         classes = [rng.choice(["scalar", "scalar", "vector", "tensor"]) for _ in range(rng.choice([1, 2, 3]))]
         kind = rng.choice([1, 1, 2])
-        return {"k": "fromData", "g": g, "classes": classes, "vals": gen_vals(rng, 60, kind), "dt": rng.choice([None, None, "f32", "c128"])}
+        return {"k": "fromData", "g": g, "classes": classes, "vals": gen_vals(rng, 60, kind), "dt": rng.choice([None, None, "f32", "c128"]),
+                "ghosts": rng.random() < 0.6}
 
     def g_slice(self):
         w, rng = self.w, self.rng
@@ -1417,6 +1474,11 @@ class Gen:
             return None
         return {"k": "copy", "h": self.name(i), "dt": rng.choice([None] * 5 + ["f64", "c128", "f32", "c64"]),
                 "how": rng.choice(["copy", "copy", "copy", "ctor"])}
+
+    def g_deepcopy(self):
+        w = self.w
+        i = self.pick(lambda j: w.cls[j] != "raw")
+        return None if i is None else {"k": "deepcopy", "h": self.name(i), "how": self.rng.choice(["deepcopy", "pickle"])}
 
     def g_neg(self):
         w = self.w
@@ -1557,9 +1619,11 @@ class Gen:
 def gen_history(rng, length, allow_jit=False, monitors=True):
     gspecs = [gen_grid(rng)]
     if rng.random() < 0.3:
+        # the second grid must be unequal AND incompatible in py-pde's sense (a UnitGrid equals the
+        # CartesianGrid with the same shape and bounds although the two are not `compatible_with`)
         g2 = gen_grid(rng)
-        key = lambda sp: sp[:2] if sp[0] == "unit" else (sp[:3] if sp[0] == "cart" else (sp[:6] if sp[0] == "cyl" else sp))
-        if key(g2) != key(gspecs[0]):
+        a, b = make_grid(gspecs[0]), make_grid(g2)
+        if (a.shape, a.axes_bounds) != (b.shape, b.axes_bounds):
             gspecs.append(g2)
     w = World(gspecs, monitors=monitors)
     gen = Gen(rng, w, allow_jit)
@@ -1634,6 +1698,12 @@ def compare(w, answer):
         if lab != rec["root"]:
             return {"step": t, "what": f"partition of the handles into underlying arrays after {opname}", "model": lab, "impl": rec["root"]}
     return None
+
+
+def diff_key(diff):
+    """kind of a disagreement, independent of handle numbers and operation positions"""
+    import re
+    return re.sub(r"\d+", "#", diff["what"])
 
 
 def case_of(w):
@@ -1743,7 +1813,7 @@ def shrink_disagreement(ctx, case, what_key):
                 out.append(False)
                 continue
             diff = compare(w, next(ans))
-            out.append(diff is not None and diff["what"].split(" after ")[0].split(" of handle")[0] == what_key)
+            out.append(diff is not None and diff_key(diff) == what_key)
         return out
     w = rebuild(case, monitors=False, script=shrink(case, failing_many))
     b = LeanBatch(ctx.workdir)
@@ -1859,7 +1929,7 @@ def run(ctx):
     dis.sort(key=lambda cd: len(cd[0]["script"]))
     kinds = set()
     for case, diff in dis:
-        key = diff["what"].split(" after ")[0].split(" of handle")[0]
+        key = diff_key(diff)
         if key in kinds or len(kinds) >= 3 or diff["what"] == "outcome of a valid operation":
             ctx.disagree("correspondence", case, diff.get("model"), diff.get("impl"),
                          diff["what"] + " | history: " + str(summarize(case))[:1500])
@@ -1873,6 +1943,9 @@ def run(ctx):
 
 
 def finding_key(f):
+    if f["detail"].get("operation") == "deepcopy" and ("data is not the live view" in f["what"] or "member" in f["what"]
+                                                      or "not seen through" in f["what"]):
+        return {"call_site": "FieldBase.__setstate__", "symptom": "data-detached-from-data_full-after-pickle-or-deepcopy"}
     if "component view" in f["what"]:
         return {"call_site": "VectorField/Tensor2Field.__getitem__",
                 "symptom": "component-copy-for-non-default-dtype" if f["detail"].get("shares_memory") is False else "component-view-wrong"}
